@@ -17,7 +17,7 @@ func init() {
 	property("C07",
 		"Static conformance of the structural part of format(): (a) conservation — in the main loop of FormatText every non-break word is written to the current line exactly once on every path, every reset of the current line is preceded by flushing it to the output, a break word flushes the line, writes one break code and one newline, the final line is flushed after the loop, and nothing but the word, a single space, the line content, the break codes and the newline byte is ever written; (b) break discipline shape — the automatic break (\\N) and the wrap choose between \\n and \\l by the same predicate over (current line number, numLines), the line number is incremented on every line end and reset by a paragraph break; (c) parameter binding — each named format() parameter reaches the FormatText parameter of the same meaning, font-config fallbacks read the field of the same name under the font id that is passed to FormatText; (d, e) the formatter writes no state and glyph widths are read from the font table by presence; (f) the break-code predicates the other clauses are stated with mean what their names say (isLineBreak = {\\n, \\l, \\p, \\N}, …), every word is scanned in the text whose line breaks were turned into spaces, and the -f / -fc / -l options reach the parser fields of their meaning. NOT decided (runtime arithmetic): that every line fits maxLineLength, that a word moves only when it does not fit, cursor-overlap accounting, and getNextWord's tokenisation. The word-to-table chain measures runes with the asked-for font and looks codes up under their own spelling (C07.e); fallbacks are taken exactly for non-positive values and the command-line font precedes the config default (C07.c); position, separator space, first-word flag (C07.a) and the escape flag (C07.d) follow their protocols; the font table is read-only (C17.g); config keys and struct tags agree (C11.d); integers are decoded with base 0 (C14.e).",
 		[]string{"pixel-width arithmetic and getNextWord tokenisation are not decided (DESIGN §6)", "go/ssa lowering is faithful to the source"},
-		"C07.a", "C07.b", "C07.c", "C07.d", "C07.e", "C07.f", "C06.b", "C09.b", "C17.f", "C19.c", "C17.g", "C14.e", "C11.d", "C19.b", "C18.m", "C18.n", "C18.d")
+		"C07.a", "C07.b", "C07.c", "C07.d", "C07.e", "C07.f", "C06.b", "C09.b", "C17.f", "C19.c", "C17.g", "C14.e", "C11.d", "C19.b", "C18.m", "C18.n", "C18.d", "C05.a")
 
 	register(&Rule{ID: "C07.d", Doc: "formatting is a function of (text, font table, parameters): the formatter writes no state; depth counters of the word scanner cannot go negative", Floor: 4, Run: c07d})
 	register(&Rule{ID: "C07.e", Doc: "a width is what the font table says for the glyph when it lists it (also when that is 0), else the font's default, else the fallback: presence decided by the comma-ok bit; cursor room reserved exactly on lines that show the prompt", Floor: 5, Run: c07e})
